@@ -594,7 +594,7 @@ func runCase(c driver.Case) driver.Result {
 		res.Events = int64(len(ev))
 	case "stop":
 		// silence after Unsubscribe / context cancellation at a random instant
-		which := rng.Intn(6)
+		which := rng.Intn(8)
 		ctx, cancel := context.WithCancel(context.Background())
 		defer cancel()
 		r := rec.New("stop")
@@ -617,9 +617,15 @@ func runCase(c driver.Case) driver.Result {
 		case 4:
 			name = "BufferWithTime"
 			sub = ro.BufferWithTime[int](d)(s.Observable()).SubscribeWithContext(ctx, rec.Raw[[]int](r))
-		default:
+		case 5:
 			name = "Timeout"
 			sub = ro.Timeout[int](d)(s.Observable()).SubscribeWithContext(ctx, rec.Raw[int](r))
+		case 6:
+			name = "BufferWithTimeOrCount"
+			sub = ro.BufferWithTimeOrCount[int](1000, d)(s.Observable()).SubscribeWithContext(ctx, rec.Raw[[]int](r))
+		default:
+			name = "ThrottleTime"
+			sub = ro.ThrottleTime[int](d)(s.Observable()).SubscribeWithContext(ctx, rec.Raw[int](r))
 		}
 		stopFeed := make(chan struct{})
 		fed := make(chan struct{})
@@ -638,7 +644,12 @@ func runCase(c driver.Case) driver.Result {
 			}
 		}()
 		time.Sleep(time.Duration(rng.Int63n(int64(4 * d))))
-		byCancel := which <= 1 && rng.Intn(2) == 0
+		// Cancellation is applied to the periodic sources and to the operators whose time base is such a source
+		// (SampleTime, BufferWithTime, BufferWithTimeOrCount: their ticker ends with the context, and with it the
+		// stream). The source of cases 2.. is a plain producer that knows nothing of the context and keeps
+		// emitting: Delay, Timeout and ThrottleTime have no time base of their own that could notice the
+		// cancellation, they are stopped by Unsubscribe only.
+		byCancel := (which <= 1 || which == 3 || which == 4 || which == 6) && rng.Intn(2) == 0
 		if byCancel {
 			cancel()
 		} else {
